@@ -134,14 +134,26 @@ fn main() {
                         out.push(&d);
                     }
                 }
-                // beyond the listed property: exact provisional address and the probation table
-                let mut ext_obs = ext.clone();
-                ext_obs["remote"] = obs["remote"].clone();
-                if ext_obs != e["ext"] {
-                    drift += 1;
-                    if drift <= 20 {
-                        out.push(&json!({"type": "drift", "edge": idx, "rule": "EXT", "expected": e["ext"],
-                                         "observed": ext_obs, "case": e}));
+                // Signaling reset must clear the probation observations ("until signaling resets the
+                // latch"): a stale table would let pre-reset sources vote in the next decision.
+                let kind = e["kind"].as_str().unwrap_or("");
+                if (kind == "reset" || kind == "signaling")
+                    && (ext["total"] != e["ext"]["total"] || ext["cands"] != e["ext"]["cands"]
+                        || ext["probOn"] != e["ext"]["probOn"])
+                {
+                    out.push(&json!({"type": "divergence", "edge": idx, "rule": "ResetClears", "field": "probation",
+                                     "allowed": [e["ext"]], "observed": ext, "kind": e["kind"], "by": e["by"],
+                                     "case": e}));
+                } else {
+                    // beyond the listed property: exact provisional address and the probation table
+                    let mut ext_obs = ext.clone();
+                    ext_obs["remote"] = obs["remote"].clone();
+                    if ext_obs != e["ext"] {
+                        drift += 1;
+                        if drift <= 20 {
+                            out.push(&json!({"type": "drift", "edge": idx, "rule": "EXT", "expected": e["ext"],
+                                             "observed": ext_obs, "case": e}));
+                        }
                     }
                 }
             }
